@@ -11,11 +11,16 @@ What is proved here, and of what:
     `C05_lockset_sound`   lockset discipline  ⇒ no reachable data race
     `C05_order_sound`     ranked lock order   ⇒ no reachable deadlock
     `C05_no_wait_cycle`   ranked lock order   ⇒ no wait-for cycle in any reachable state
+    `C05_order_sound_gated`, `C05_no_wait_cycle_gated`  the same with GATE locks: a lock
+                          that is only taken under its gate (bbolt's single-writer lock of the
+                          statistics database under `StatsCtx.confMu`) may be taken out of rank
+                          order by a goroutine that holds the gate exclusively; leaf holds
+                          (released at once) may omit the gate
     `C05_model_meets_spec` the executable runner used by the driver satisfies the
                           schedule monitor for every program and schedule.
 * PER PROGRAM (tables regenerated from the Go source by /verif/extract/cmd/c05,
   re-checked by `decide +kernel` on every run):
-    `C05_program_disciplined_partial`, `C05_program_ranked` and their
+    `C05_program_disciplined_partial`, `C05_program_ranked`, `C05_program_gated` and their
     consequences `C05_program_race_free_partial`,
     `C05_program_deadlock_free_partial` for every set of goroutines that
     conforms to the tables (the explicit statement of what the extractor is
@@ -38,6 +43,8 @@ import AGH.Lemmas.LocksExec
 import AGH.Lemmas.LocksProgress
 import AGH.Lemmas.LocksCycle
 import AGH.Lemmas.LocksExamples
+import AGH.Lemmas.LocksGate
+import AGH.Lemmas.LocksGateExamples
 import AGH.Gen.C05Locks
 namespace AGH.C05
 open AGH.Gen.C05
@@ -65,6 +72,23 @@ theorem C05_order_sound (rank : Lock → Nat) (p : Prog) (h : progRanked rank p 
 theorem C05_no_wait_cycle (rank : Lock → Nat) (p : Prog) (h : progRanked rank p = true) :
     ∀ s, Reach (init p) s → ∀ i, ¬ WaitChain s i i :=
   no_wait_cycle rank p h
+
+/-- Ranked lock order with gate locks is sufficient for deadlock freedom: a
+lock whose every (non-leaf) acquisition is made under its gate may be acquired
+out of rank order by a goroutine that holds the gate exclusively. -/
+theorem C05_order_sound_gated (rank : Lock → Nat) (gate : Lock → Option Lock) (p : Prog)
+    (h : progRankedG rank gate p = true) : ∀ s, Reach (init p) s → ¬ Deadlock s :=
+  order_sound_gated rank gate p h
+
+/-- … and for the absence of wait-for cycles. -/
+theorem C05_no_wait_cycle_gated (rank : Lock → Nat) (gate : Lock → Option Lock) (p : Prog)
+    (h : progRankedG rank gate p = true) : ∀ s, Reach (init p) s → ∀ i, ¬ WaitChain s i i :=
+  no_wait_cycle_gated rank gate p h
+
+/-- Without gates the gated discipline is the plain ranked lock order. -/
+theorem C05_gated_generalises (rank : Lock → Nat) (p : Prog) :
+    progRankedG rank (fun _ => none) p = progRanked rank p :=
+  progRankedG_none rank p
 
 /-- The executable runner (the driver's model) only visits reachable states. -/
 theorem C05_exec_reachable (p : Prog) (sched : List Nat) :
@@ -115,18 +139,26 @@ theorem C05_program_race_free_partial (p : List (List LEvent))
   rintro _ ⟨t, ht, rfl⟩
   exact disc_of_conforms guards accesses C05_program_disciplined_partial t [] (hc t ht)
 
-/-- Every goroutine set whose nested acquisitions are (non-finding) edges of the
-table, with balanced releases, is free of deadlocks and wait-for cycles under
-every interleaving. -/
-theorem C05_program_deadlock_free_partial (p : Prog)
-    (hc : ∀ t ∈ p, conformsOrd edges [] t = true) :
-    ∀ s, Reach (init p) s → ¬ Deadlock s ∧ ∀ i, ¬ WaitChain s i i := by
-  have hr : progRanked (rankOf ranks) p = true := by
-    simp only [progRanked, List.all_eq_true]
-    intro t ht
-    exact rank_of_conforms ranks edges C05_program_ranked t [] (hc t ht)
+/-- Obligation 3 (regenerated table): every acquisition site of a gated lock
+(bbolt's writer lock of the statistics database) that is not a reported finding
+holds the gate, or is a leaf hold.  THIS is the obligation that fails when a
+reader takes the bbolt lock without `confMu`. -/
+theorem C05_program_gated : acqsGated gates acqs = true := by
+  decide +kernel
+
+/-- Every goroutine set whose blocking nested acquisitions are (non-finding)
+edges of the table and whose acquisitions of gated locks come from non-finding
+sites of the table, with balanced releases, is free of deadlocks and wait-for
+cycles under every interleaving. -/
+theorem C05_program_deadlock_free_partial (p : List (List LEvent))
+    (hc : ∀ t ∈ p, conformsOrdG edges gates acqs [] t = true) :
+    ∀ s, Reach (init (p.map eraseLabels)) s → ¬ Deadlock s ∧ ∀ i, ¬ WaitChain s i i := by
+  have hr : progRankedG (rankOf ranks) (gateFn gates) (p.map eraseLabels) = true := by
+    simp only [progRankedG, List.all_eq_true, List.mem_map]
+    rintro _ ⟨t, ht, rfl⟩
+    exact rank_of_conforms_gated ranks edges gates acqs C05_program_ranked C05_program_gated t [] (hc t ht)
   intro s hs
-  exact ⟨order_sound _ p hr s hs, no_wait_cycle _ p hr s hs⟩
+  exact ⟨order_sound_gated _ _ _ hr s hs, no_wait_cycle_gated _ _ _ hr s hs⟩
 
 /-! ### the reported findings are real violations of the disciplines -/
 
@@ -136,6 +168,22 @@ marking cannot be used to excuse a disciplined access, and the full statement
 theorem C05_counterexample_known_rows :
     accesses.all (fun a => !a.known || !rowOK guards a) = true := by
   decide +kernel
+
+/-- Every acquisition row marked as a reported finding does take a gated lock
+without its gate and holds it while acquiring something else. -/
+theorem C05_counterexample_known_acqs :
+    acqs.all (fun a => !a.known || !(a.leaf ||
+      (match lookup gates a.lock with
+       | none => true
+       | some g => a.heldShared.contains g || a.heldExcl.contains g))) = true := by
+  decide +kernel
+
+/-- Dropping the gate is not harmless: a reader that takes the gated lock without
+the gate and then a lock the flusher holds is a reachable deadlock of the
+machine (the pattern of finding R11 and of the seeded stats change). -/
+theorem C05_counterexample_ungated_reader :
+    ∃ s, Reach (init exUngated) s ∧ Deadlock s :=
+  exUngated_deadlock
 
 /-- The witness the extractor gives for the reported lock-order findings is a
 cycle of the full edge relation (or there is no such finding). -/
@@ -174,10 +222,17 @@ example : accesses.length > 0 ∧ accesses.any (·.write) = true ∧
 
 /-- A goroutine that conforms to the regenerated lock-order table: it nests the
 two locks of the first edge. -/
-example : (match edges with
-    | (a, b) :: _ => conformsOrd edges [] [.acq a .excl, .acq b .excl, .rel b .excl, .rel a .excl]
-    | [] => true) = true := by
+example : (match edges.find? (fun e => (lookup gates e.1).isNone && (lookup gates e.2).isNone) with
+    | some (a, b) => conformsOrdG edges gates acqs []
+        [(.acq a .excl, 0), (.acq b .excl, 0), (.rel b .excl, 0), (.rel a .excl, 0)]
+    | none => true) = true := by
   decide +kernel
+
+/-- The gate table is in use: some acquisition row holds its gate, and the
+gated discipline is satisfiable where the plain one is not. -/
+example : acqs.any (fun a => !a.known && !a.leaf) = true ∧
+    progRankedG exGateRank exGate exGated = true ∧ (∀ rank, progRanked rank exGated = false) :=
+  ⟨by decide +kernel, by decide, exGated_not_ranked⟩
 
 /-- A labelled goroutine that conforms to the regenerated access table: it
 performs the access of the first disciplined row with the row's locks held. -/
